@@ -32,7 +32,7 @@ theorem stepOK_of {bb : Option Name} {P : List Obj} {w1 : World} {a : Oid} {op :
     (hask : askedClause P (recOf w1 a op vs cs res) = true) :
     StepOK bb P w1 (recOf w1 a op vs cs res) := by
   have hc : (recOf w1 a op vs cs res).crash = false := crashes_false hinv.uid M
-  have := snapshot_clauses (P := P) (S := w1.objs) (r := recOf w1 a op vs cs res) rfl hc hinv.uid H M
+  have := snapshot_clauses (P := P) (S := w1.objs) (r := recOf w1 a op vs cs res) rfl hc hinv.uid hinv.wf H M
   exact ⟨hinv, rfl, hc, this.1, this.2.1, this.2.2, hcre, hno, hex, hask, rfl, rfl, rfl⟩
 
 /-- a step that changes no registered object and creates nothing -/
